@@ -6,7 +6,7 @@ N=$1; D=/verif/seeded/$N; ID=$(echo $N | cut -d- -f1); shift
 W=/tmp/sr/$N; rm -rf $W; mkdir -p /tmp/sr
 git -C /repo worktree add -q --detach $W HEAD || exit 2
 git -C $W apply $D/patch.diff || { git -C /repo worktree remove --force $W; exit 2; }
-cd /verif && VERIF_REPO=$W VERIF_EVIDENCE_DIR=/tmp/sr/ev_$N ./check $ID "$@" > /tmp/try_$N.log 2>&1; E=$?
+cd /verif && VERIF_REPO=$W VERIF_EVIDENCE_DIR=/tmp/sr/ev_$N VERIF_REPLAY_DIR=/tmp/sr/replays_$N ./check $ID "$@" > /tmp/try_$N.log 2>&1; E=$?
 git -C /repo worktree remove --force $W
 grep -E "^(VIOLATION|KNOWN-FINDING|HARNESS-ERROR)" /tmp/try_$N.log | cut -c1-300 | head -8
 echo "exit=$E"
